@@ -44,7 +44,7 @@ from engine.core import MachineryError, digest
 
 F5_SIGNATURE = {'auto_parse_qs_csv': True, 'keep_blank_qs_values': False,
                 'field': 'comma-separated value with blank elements only', 'effect': 'name mapped to an empty list'}
-KINDS = ('str', 'int', 'float', 'bool', 'uuid', 'datetime', 'date', 'json', 'list', 'list_int')
+KINDS = ('str', 'int', 'float', 'bool', 'uuid', 'datetime', 'date', 'json', 'list', 'list_int', 'has')
 TRUE_DOC = ('true', 'True', 't', 'yes', 'y', '1', 'on')          # from the docstring of get_param_as_bool
 FALSE_DOC = ('false', 'False', 'f', 'no', 'n', '0', 'off')
 ABSENT = '~absent~'
@@ -249,11 +249,18 @@ def getter_event(req, name, call, present, convs):
         kw['transform'] = int
     meth = {'str': 'get_param', 'int': 'get_param_as_int', 'float': 'get_param_as_float', 'bool': 'get_param_as_bool',
             'uuid': 'get_param_as_uuid', 'datetime': 'get_param_as_datetime', 'date': 'get_param_as_date',
-            'json': 'get_param_as_json', 'list': 'get_param_as_list', 'list_int': 'get_param_as_list'}[kind]
+            'json': 'get_param_as_json', 'list': 'get_param_as_list', 'list_int': 'get_param_as_list', 'has': 'has_param'}[kind]
     e = {'present': present, 'convs': convs, 'call': call, 'res': 'none', 'v': 0, 'vs': [], 'stored': False,
          'sv': 0, 'svs': [], 'exc': ''}
     try:
+        if kind == 'has':
+            r = req.has_param(name)
+            if not isinstance(r, bool):
+                raise TypeError('has_param returned %r' % (r,))
+            e['res'], e['v'], e['shown'] = 'value', int(r), repr(r)
+            return e
         r = getattr(req, meth)(name, **kw)
+        e['shown'] = repr(r)[:80]
         if r is dflt:
             e['res'] = 'default'
         elif r is None:
@@ -318,18 +325,19 @@ def run_judge(ctx, module, traces, chunk=1500, workers=8):
 
 
 def strip(e):
-    return {k: v for k, v in e.items() if k not in ('exc', 'meta')}
+    return {k: v for k, v in e.items() if k not in ('exc', 'meta', 'shown')}
 
 
-def judge_each(ctx, module, events, per=25):
-    """One verdict clause per event ('ok' or the failing clause); events after a failing one in a
-    batch are re-judged singly.  Also returns the exports keyed by event index."""
+def judge_each(ctx, module, events, per=25, cap=300):
+    """One verdict clause per event ('ok' or the failing clause).  Events after a failing one in a
+    batch are re-judged singly, at most `cap` of them (verdict None = not judged: with that many
+    failures naming every one adds nothing).  Also returns the exports keyed by event index."""
     verdict = [None] * len(events)
     exports = {}
     groups = [list(range(i, min(i + per, len(events)))) for i in range(0, len(events), per)]
-    rounds = 0
-    while groups:
-        rounds += 1
+    for rnd in (1, 2):
+        if not groups:
+            break
         vs, ex = run_judge(ctx, module, [{'ev': [strip(events[j]) for j in g]} for g in groups])
         for x in ex:
             g = groups[x['tid'] - 1]
@@ -344,11 +352,7 @@ def judge_each(ctx, module, events, per=25):
                     verdict[j] = 'ok'
                 verdict[g[idx - 1]] = v
                 nxt += [[j] for j in g[idx:]]
-        groups = nxt
-        if rounds > 3 and groups:
-            groups = groups[:500]
-            if rounds > 5:
-                break
+        groups = nxt[:cap]
     return verdict, exports
 
 
@@ -380,8 +384,9 @@ def report_getter(ctx, clause, e, origin):
             'text': meta['q'].encode('unicode_escape').decode()}
     what = '[%s] query %r keep_blank=%s csv=%s: %s getter(%r, %s) -> %s v=%s vs=%s stored=%s %s' % (
         meta['surface'], meta['q'], meta['kb'], meta['csv'], e['call']['kind'], meta['name'],
-        ','.join('%s=%s' % (k, v) for k, v in e['call'].items() if v and k != 'kind'),
-        e['res'], e['v'], e['vs'], e['stored'], e['exc'])
+        ','.join('%s=%s' % (k, v / 1000.0 if k in ('min', 'max') and e['call']['kind'] == 'float' else v)
+                 for k, v in e['call'].items() if v and k != 'kind'),
+        e['res'], e.get('shown', ''), e['vs'], e['stored'], e['exc'])
     if clause.startswith('D:'):
         ctx.detail(clause, case, what)
     else:
@@ -428,7 +433,7 @@ def getter_events_for(ctx, rng, surface, req, q, kb, csv, spec_entries, impl_ent
         for kind in kinds:
             call = random_call(rng, kind)
             try:
-                convs = [refconv(kind, v) for v in vals] if vals else []
+                convs = [refconv(kind, v) for v in vals] if vals and kind != 'has' else []
             except Unrepresentable:
                 continue
             if kind not in ('list', 'list_int'):
@@ -471,11 +476,16 @@ def run(ctx):
     rt = ctx.tlc('MC_QueryString', ctx.pick('MC_QueryStringRTQ.cfg', 'MC_QueryStringRT.cfg'), coverage=True, workers=6,
                  timeout=900)
     ctx.require_coverage(rt, ['XRender', 'XReparse'])
-    bad = ctx.tlc('MC_QueryString', 'MC_QueryStringBad.cfg', must_hold=False, count=False, workers=2, timeout=120)
-    if bad.violated not in ('RoundTrip', 'RoundTripNoBlanks'):
-        raise MachineryError('vacuity: decode-before-split design not rejected (%r)' % (bad.violated,))
+    if not ctx.quick:        # vacuity: the wrong-design switch must be rejected (thorough tier only: two JVM starts)
+        bad = ctx.tlc('MC_QueryString', 'MC_QueryStringBad.cfg', must_hold=False, count=False, workers=2, timeout=120)
+        if bad.violated not in ('RoundTrip', 'RoundTripNoBlanks'):
+            raise MachineryError('vacuity: decode-before-split design not rejected (%r)' % (bad.violated,))
     ctx.exhaustive = True
     parse_cases = [c for c in r.json if c['phase'] == 'parsed']
+    if not ctx.quick:        # next bound up: length 5 over the structural symbols
+        r5 = ctx.tlc('MC_QueryString', 'MC_QueryString5.cfg', coverage=True, workers=6, timeout=1200)
+        seen5 = {(tuple(c['q']), c['kb'], c['csv']) for c in parse_cases}
+        parse_cases += [c for c in r5.json if c['phase'] == 'parsed' and (tuple(c['q']), c['kb'], c['csv']) not in seen5]
     if len(parse_cases) < r.distinct * 3 // 5:
         raise MachineryError('Emit produced %d parse cases for %d states' % (len(parse_cases), r.distinct))
     ctx.progress('leg M (query strings): %d + %d states; %d parse cases, %d render/reparse cases'
@@ -484,8 +494,8 @@ def run(ctx):
     # ---- leg A: parse cases on three surfaces ------------------------------------------------------
     suspects = []            # (event, surface) where code and spec differ -> TLC names the clause
     gevents = {}
-    typed = [k for k in KINDS if k not in ('str', 'list')]
-    gsample = ctx.pick(3, 2)
+    typed = [k for k in KINDS if k not in ('str', 'list', 'has')]
+    gsample = ctx.pick(3, 8)
     for n, c in enumerate(parse_cases):
         q = txt(c['q'])
         nontriv = any(x in q for x in '%+,') or has_repeat(c['entries'])
@@ -500,7 +510,7 @@ def run(ctx):
             if e['err'] or e['entries'] != c['entries']:
                 suspects.append((e, surface))
             if req is not None and (n % gsample == 0 or c['blankcsv']):
-                kinds = ['str', 'list', typed[(n // gsample) % len(typed)]]
+                kinds = ['str', 'list', 'has', typed[(n // gsample) % len(typed)]]
                 getter_events_for(ctx, rng, surface, req, q, c['kb'], c['csv'], c['entries'], e['entries'], kinds,
                                   gevents, 'enumerated query string')
     ctx.traces_validated += len(parse_cases)
@@ -515,6 +525,7 @@ def run(ctx):
 
     # ---- leg A: to_query_str -------------------------------------------------------------------------
     rsus = []
+    rtsus = []
     nren = 0
     rendered = {}
     for c in rt.json:
@@ -538,11 +549,13 @@ def run(ctx):
             nren += 1
             ctx.case(None, nontrivial=True, key=('rr', digest(c['m']), c['cl'], c['kb'], c['csv']))
             if e['err'] or e['entries'] != c['entries']:
-                suspects.append((e, 'func'))
-                v, _ = judge_each(ctx, 'QueryStringTrace', [e], per=1)
-                if v[0] != 'ok':
-                    report_parse(ctx, v[0] if v[0] != 'P:params' else 'P:roundtrip', e, 'func',
-                                 'to_query_str output read back (mapping %s)' % (c['m'],))
+                rtsus.append((e, c['m']))
+    if rtsus:
+        vs, _ = judge_each(ctx, 'QueryStringTrace', [e for e, _ in rtsus[:600]], per=10)
+        for (e, m), v in zip(rtsus, vs):
+            if v is not None and v != 'ok':
+                report_parse(ctx, v if v != 'P:params' else 'P:roundtrip', e, 'func',
+                             'to_query_str output read back (mapping %s)' % (m,))
     ctx.traces_validated += len(rt.json)
     if rsus:
         vs, _ = judge_each(ctx, 'QueryStringTrace', rsus[:800], per=10)
@@ -552,11 +565,12 @@ def run(ctx):
     ctx.progress('leg A (to_query_str): %d calls, %d renderings differ' % (nren, len(rsus)))
 
     # ---- leg M + A: getter protocol over a value pool ---------------------------------------------
-    pool = ['', '12', '-3', '0', ' 7 ', '1.5', 'abc', 'true', 'no', '1e1', '41',
-            '0a5b8f3c-9a1e-4c7d-8b2f-1f2e3d4c5b6a', '2024-02-29', '2024-02-29T12:30:45+0100', '{"a": [1, 2]}', '"x"',
+    # (the numeric strings include the candidate bounds 0 / 10 / 7.0 themselves: boundary cases)
+    pool = ['', '12', '-3', '0', '10', '7.0', '1.5', 'abc', 'true', '0a5b8f3c-9a1e-4c7d-8b2f-1f2e3d4c5b6a', '2024-02-29',
+            ' 7 ', 'no', '1e1', '41', '2024-02-29T12:30:45+0100', '{"a": [1, 2]}', '"x"',
             'é,&=+%', '１２', '9999999999999', '2024-02-30']
     if ctx.quick:
-        pool = pool[:3] + pool[5:8] + pool[11:13]
+        pool = pool[:11]
     table = {'nv': len(pool), 'conv': {}}
     unrep = set()            # (kind, value index) the abstraction cannot represent: those cases are not replayed
     for kind in ('str', 'int', 'float', 'bool', 'uuid', 'datetime', 'date', 'json'):
@@ -573,11 +587,12 @@ def run(ctx):
         _json.dump(table, f)
     rg = ctx.tlc('MC_ParamGetters', 'MC_ParamGetters.cfg', coverage=True, workers=6, timeout=900, env={'CONV_FILE': cpath})
     ctx.require_coverage(rg, ['XGetParam', 'XGetInt', 'XGetFloat', 'XGetBool', 'XGetUuid', 'XGetDatetime', 'XGetDate',
-                              'XGetJson', 'XGetList', 'XGetListInt'])
-    badg = ctx.tlc('MC_ParamGetters', 'MC_ParamGettersBad.cfg', must_hold=False, count=False, workers=2, timeout=120,
-                   env={'CONV_FILE': cpath})
-    if badg.violated not in ('GetterNeverMisreports', 'LastOccurrenceOnly'):
-        raise MachineryError('vacuity: first-occurrence design not rejected (%r)' % (badg.violated,))
+                              'XGetJson', 'XGetList', 'XGetListInt', 'XHasParam'])
+    if not ctx.quick:
+        badg = ctx.tlc('MC_ParamGetters', 'MC_ParamGettersBad.cfg', must_hold=False, count=False, workers=2, timeout=120,
+                       env={'CONV_FILE': cpath})
+        if badg.violated not in ('GetterNeverMisreports', 'LastOccurrenceOnly'):
+            raise MachineryError('vacuity: first-occurrence design not rejected (%r)' % (badg.violated,))
     ctx.progress('leg M (getters): %d states, %d cases' % (rg.distinct, len(rg.json)))
     gsus = []
     reqcache = {}
@@ -587,14 +602,14 @@ def run(ctx):
         call = c['call']
         kind = call['kind']
         ck = 'int' if kind == 'list_int' else 'str' if kind == 'list' else kind
-        if any((ck, i) in unrep for i in c['vals']):
+        if kind != 'has' and any((ck, i) in unrep for i in c['vals']):
             continue
         for surface in ('wsgi', 'asgi'):
             key = (surface, q)
             if key not in reqcache:
                 reqcache[key] = make_request(surface, q, True, False)
             req = reqcache[key]
-            convs = [table['conv'][ck][i - 1] for i in c['vals']]
+            convs = [table['conv'][ck][i - 1] for i in c['vals']] if kind != 'has' else []
             e = getter_event(req, 'p', call, c['present'], convs)
             if e is None:
                 continue
@@ -678,7 +693,7 @@ def run(ctx):
     for j, (surface, req, q, kb, csv) in enumerate(preqs):
         if req is None or (q, kb, csv) not in specs or pevents[j]['err']:
             continue
-        kinds = ['str', 'list'] + rng.sample(typed, 3)
+        kinds = ['str', 'list', 'has'] + rng.sample(typed, 3)
         getter_events_for(ctx, rng, surface, req, q, kb, csv, specs[(q, kb, csv)]['entries'], pevents[j]['entries'],
                           kinds, gevents, 'random query string')
     gl = list(gevents.values())
